@@ -40,7 +40,8 @@ GReopen ==
     /\ Reopen({})
     /\ H([op |-> "reopen", nextTs |-> nextTs', lv |-> lv', db |-> db, may |-> may])
 
-GPrepare(m) == Prepare(m) /\ H([op |-> "prepare", mode |-> m, level |-> level', lv |-> lv', flatten |-> (m = "incr" /\ Top = 0 /\ Flattens)])
+GPrepare(m) == Prepare(m) /\ H([op |-> "prepare", mode |-> m, level |-> level', lv |-> lv', flatten |-> (m = "incr" /\ Top = 0 /\ Flattens),
+                                  moved |-> (m = "incr" /\ Top = 0 /\ level' # MaxLevels - 2)])
 GChoose(s, S) == Choose(s, S) /\ H([op |-> "content", s |-> s, entries |-> KeySort(S)])
 GWrite(n, d) == Write(n, d) /\ H([op |-> "write", n |-> n, done |-> d])
 GFlush == Flush /\ H([op |-> "flush", nextTs |-> nextTs', lv |-> lv', db |-> db', may |-> may,
